@@ -4,19 +4,20 @@
    [Runtime k] marks the place S<k> (DESIGN.md Appendix B) where the Rust code indexes the node table
    or unwraps.  Sites 1 2 3 5 10 11 12 are syntactically guarded when fx = true; sites 4 and 9 are
    unreachable because [link] never removes a node; site 0 because [loop] checks liveness before it calls
-   [run_node_update]; site 13 because [try_use_context] checks the liveness of the current node first.
-   The remaining sites 6 7 8 14 need a global invariant (or are reachable): see WF.v. *)
+   [run_node_update]; site 13 because [try_use_context] checks the liveness of the current node first;
+   site 14 is guarded since commit 87c1b28 (an owner that is gone ends the walk of try_use_context).
+   The remaining sites 6 7 8 need the edge invariant of WF.v. *)
 From stdpp Require Import gmap list.
 From Coq Require Import ZArith Lia.
 From Syc Require Import Reactive.Syntax Reactive.Interp Reactive.Show.
 
 (* the sites excluded by this file *)
 Definition guarded_sites : list nat := [1;2;3;5;10;11;12]%nat.
-Definition local_sites : list nat := [0;1;2;3;4;5;9;10;11;12;13]%nat.
+Definition local_sites : list nat := [0;1;2;3;4;5;9;10;11;12;13;14]%nat.
 
 (* the only runtime sites a failing run can end in *)
 Definition ok_err (e : err) : Prop :=
-  match e with Runtime k => k = 6%nat \/ k = 7%nat \/ k = 8%nat \/ k = 14%nat | _ => True end.
+  match e with Runtime k => k = 6%nat \/ k = 7%nat \/ k = 8%nat | _ => True end.
 Definition safe {A} (r : res A) : Prop :=
   match r with Ok _ _ => True | Err e _ => ok_err e end.
 
@@ -25,7 +26,7 @@ Lemma safe_bind {A B} (r : res A) (k : A -> state -> res B) :
 Proof. destruct r as [a s|e s]; cbn; intros Hr Hk; [apply Hk; reflexivity|exact Hr]. Qed.
 
 Lemma ok_err_not_local (k : nat) : ok_err (Runtime k) -> ~ In k local_sites.
-Proof. cbn. intros [-> | [-> | [-> | ->]]] Hin; cbn in Hin; intuition discriminate. Qed.
+Proof. cbn. intros [-> | [-> | ->]] Hin; cbn in Hin; intuition discriminate. Qed.
 
 Ltac site_ok := cbn; auto 6.
 
@@ -105,13 +106,13 @@ Proof.
 Qed.
 
 Lemma use_ctx_from_safe g : forall ty id first s,
-  (first = true -> is_Some (nodes s !! id)) -> safe (use_ctx_from g ty id first s).
+  (first = true -> is_Some (nodes s !! id)) -> safe (use_ctx_from true g ty id first s).
 Proof.
   induction g as [|g IH]; intros ty id first s Hf; cbn [use_ctx_from]; [exact I|].
   destruct (nodes s !! id) as [nd|] eqn:Hn.
   - destruct (ctx_find ty (n_context nd)); [exact I|].
     destruct (n_parent nd) as [p|]; [|exact I]. apply IH. discriminate.
-  - destruct first; [destruct (Hf eq_refl); discriminate|site_ok].
+  - destruct first; [destruct (Hf eq_refl); discriminate|exact I].
 Qed.
 
 Lemma try_use_context_safe ty s : safe (try_use_context true ty s).
@@ -233,7 +234,8 @@ Proof.
   - (* dispose_children *)
     intros id s. rewrite dispose_children_S. destruct (nodes s !! id) as [nd|]; [|exact I].
     cbv zeta. sb; [apply Hrc|]. sb; [apply Hdl|].
-    match goal with |- context [alive ?i ?s4] => destruct (alive i s4) end; exact I.
+    match goal with |- context [nodes ?s4 !! id] => destruct (nodes s4 !! id) as [nd'|] end; [|exact I].
+    match goal with |- context [if ?b then _ else _] => destruct b end; [apply Hdc|exact I].
   - (* run_cleanups *)
     intros cs s. rewrite run_cleanups_S. destruct cs as [|c r]; [exact I|]. sb; [apply Hexec|]. apply Hrc.
   - (* dispose_list *)
@@ -263,15 +265,15 @@ Qed.
 (* main statements *)
 
 Theorem no_local_panic : forall f en ss s e s',
-  exec true f en ss s = Err e s' -> forall k, e = Runtime k -> ~ In k [0;1;2;3;4;5;9;10;11;12;13]%nat.
+  exec true f en ss s = Err e s' -> forall k, e = Runtime k -> ~ In k [0;1;2;3;4;5;9;10;11;12;13;14]%nat.
 Proof.
   intros f en ss s e s' H k ->. pose proof (proj1 (safe_all f) en ss s) as Hs. rewrite H in Hs.
   apply ok_err_not_local, Hs.
 Qed.
 
-(* positively: a failing run ends in a user error, in OutOfFuel/IllFormed, or at site 6, 7, 8 or 14 *)
+(* positively: a failing run ends in a user error, in OutOfFuel/IllFormed, or at site 6, 7 or 8 *)
 Theorem runtime_sites : forall f en ss s k s',
-  exec true f en ss s = Err (Runtime k) s' -> k = 6%nat \/ k = 7%nat \/ k = 8%nat \/ k = 14%nat.
+  exec true f en ss s = Err (Runtime k) s' -> k = 6%nat \/ k = 7%nat \/ k = 8%nat.
 Proof.
   intros f en ss s k s' H. pose proof (proj1 (safe_all f) en ss s) as Hs. rewrite H in Hs. exact Hs.
 Qed.
@@ -348,15 +350,16 @@ Example np_user_error :
   end.
 Proof. vm_compute. exact I. Qed.
 
-(* ... and with a runtime site outside the list (site 14, see WF.v) *)
+(* site 14 (the parent walk of try_use_context): the pinned code reaches
+   it on this program, the repaired code (dispose_children loops until the scope stays empty) runs it *)
 Definition np_prog14 : list stmt :=
   [SSignal 1 (Lit 0);
    SScope 2 [SCurScope 4; SOnCleanup 1 [SRunIn 4 [SEffect 5 (Body None [SUseCtx 7] (Get 1))]]];
    SDispose 2;
    SSet 1 (Lit 1)].
-Example np_site14_reached :
-  match exec true 400 root_env np_prog14 init_state with
-  | Err (Runtime 14) _ => True
-  | _ => False
+Example np_site14_pinned_vs_fixed :
+  match exec false 400 root_env np_prog14 init_state, exec true 400 root_env np_prog14 init_state with
+  | Err (Runtime 14) _, Ok _ _ => True
+  | _, _ => False
   end.
 Proof. vm_compute. exact I. Qed.
